@@ -195,7 +195,7 @@ func c17Blame(orig ast.Vertex, out string, r2 drive.Result) string {
 func c17Run(c *core.Ctx) {
 	level := 3
 	if c.Thorough() {
-		level = 5
+		level = 6
 	}
 	for _, fam := range []string{"php7", "php5"} {
 		f := corpus.MustFam(fam)
@@ -218,6 +218,7 @@ func c17Run(c *core.Ctx) {
 				corpus.Layout(it.R, "", " "),
 				corpus.Layout(it.R, "\r\n\t", "\t"),
 				corpus.Layout(it.R, "\n\n    ", "  "),
+				it.Src + " \n\n\t", // trailing blanks at the end of the file
 			}
 			seen := map[string]bool{}
 			for li, s := range layouts {
